@@ -205,6 +205,29 @@ Definition obs_c10_ok (tr : list rev) : bool :=
   blocks_ok [] None (msg_send_labels tr) &&
   forallb (fun l => if got_error_frame l tr || got_close l tr then rejected_sink_ok 0 (sink_ops l tr) else true) (server_labels tr).
 
+(** the replier that receives the requests changes only after the previous one departed: its
+    stream ended, or its sink failed when asked whether it is ready or to flush.  (A request its
+    sink refuses in start_send -- too large once tagged -- is dropped; the replier stays bound.) *)
+Fixpoint rebind_ok (srv dep : list N) (cur : option N) (tr : list rev) : bool :=
+  match tr with
+  | [] => true
+  | e :: r =>
+    match e with
+    | VStream l FEnd => rebind_ok srv (l :: dep) cur r
+    | VSink l OReady RErr | VSink l OFlush RErr => rebind_ok srv (l :: dep) cur r
+    | VSink l (OSend (FMsg _)) _ =>
+      if memb l srv then
+        match cur with
+        | Some c => if l =? c then rebind_ok srv dep cur r
+                    else if memb c dep then rebind_ok srv dep (Some l) r else false
+        | None => rebind_ok srv dep (Some l) r
+        end
+      else rebind_ok srv dep cur r
+    | _ => rebind_ok srv dep cur r
+    end
+  end.
+Definition obs_c10_rebind_justified (tr : list rev) : bool := rebind_ok (server_labels tr) [] None tr.
+
 Definition rcompleted (tr : list rev) : bool := existsb (fun e => match e with VEnd true => true | _ => false end) tr.
 
 (** C09 on traces: peer calls per poll bounded by the data consumed in it *)
